@@ -194,7 +194,8 @@ def document(input_file: str, settings: Settings):
     elif os.path.isdir(input_path):
         # Input was a directory, so we need to do a lot of preprocessing
 
-        last_dir_element = os.path.basename(os.path.normpath(input_file))
+        # Use the absolute path: the name of "." or "sub/.." is the name of the directory it refers to
+        last_dir_element = os.path.basename(os.path.normpath(input_path))
         prefix = prefix if prefix is not None else last_dir_element
         new_settings.rst.prefix = prefix
 
